@@ -22,6 +22,7 @@ struct Cg {
   int nprocs = 0;
   bool zeroLine = false;   // literal "0" line in cgroup.procs (task of a foreign pid namespace)
   int pref = 0;            // 0 none, 1 prefer, 2 avoid, 3 both
+  int pidsMode = 0;        // world::setPidsMode
   bool userXattr = false;  // user.oomd_* instead of trusted.oomd_*
   int preferNs = -1, avoidNs = -1;  // per-mark namespace override: 0 trusted, 1 user, -1 follow userXattr
   int oomGroup = 0;
@@ -146,6 +147,7 @@ struct Builder {
   }
   void create(const Cg& c) {
     world::mkcg(c.rel);
+    world::setPidsMode(c.rel, c.pidsMode);
     world::setMem(c.rel, c.mem);
     world::setFile(c.rel, "memory.swap.current", std::to_string(c.swap) + "\n");
     world::setFile(c.rel, "memory.low", std::to_string(c.memLow) + "\n");
